@@ -281,8 +281,8 @@ func checkDirectOne(c DirectCase, reg map[string]bool, vec Vec, orders [][]strin
 				return kit.Failf("%s: alternative %d alone: scheme %s rejects first, want its error and no principal, got %s", where, i, want.scheme, got)
 			}
 		case "nilp":
-			if !applies || usr != nil || err != nil {
-				return kit.Failf("%s: alternative %d alone: accepted without any principal, want (true, nil, nil), got %s", where, i, got)
+			if usr != nil || err != nil { // whether such an alternative "applies" is left open; it must not yield a principal
+				return kit.Failf("%s: alternative %d alone: accepted without any principal, want no principal and no error, got %s", where, i, got)
 			}
 		case "admit":
 			p, _ := usr.(string)
